@@ -390,6 +390,44 @@ THE_ID = uuid.UUID("12345678-1234-5678-1234-567812345678")
 def with_id() -> WithId: return WithId(THE_ID, 1)
 def by_id(id: uuid.UUID) -> str: CALLS.append(("by_id", id)); return str(id)
 
+@dataclass
+class Owner:
+    full_name: str = "Ann"
+@dataclass
+class Tag:
+    label: str = "t"
+@dataclass
+class Keeper:
+    nick_name: str = "k"
+@dataclass
+class Keeper2:
+    nick_name: str = "k2"
+@dataclass
+class Details:
+    serial: int = 0
+    owner_obj: Owner = field(default_factory=Owner)
+    @resolver
+    def keeper(self) -> Keeper:
+        return Keeper("kk")
+    @resolver
+    def keeper2(self) -> Optional[Keeper2]:
+        return Keeper2("k22")
+    @resolver
+    def owner(self) -> Owner:
+        return Owner("Bob")
+    @resolver
+    def tags(self, n: int = 1) -> List[Tag]:
+        return [Tag(f"t{i}") for i in range(n)]
+    @resolver
+    def maybe(self) -> Optional[Owner]:
+        return None
+@dataclass
+class Device:
+    name: str = "d"
+    details: Details = field(default_factory=Details, metadata=flatten)
+def device() -> Device: return Device("dev", Details(3))
+def owner_first() -> Owner: return Owner("Zed")
+
 def failing() -> int: raise RuntimeError("boom")
 def handled_q() -> Optional[int]: raise RuntimeError("boom")
 '''
@@ -497,6 +535,18 @@ def world_checks(st: infra.Stats):
             viol("world_error_handler", f"{r.data} {r.errors}")
     except Exception as e:
         viol("world_schema_build", f"interfaces world: {e!r}", op="interfaces", exc=type(e).__name__)
+    # resolvers of a flattened object returning object types (also when the type was / was not built before)
+    for order, ops_ in (("flattened first", [m.device, m.owner_first]), ("plain first", [m.owner_first, m.device])):
+        try:
+            s = graphql_schema(query=ops_)
+            graphql.assert_valid_schema(s)
+            st.case("world", "flattened_resolver", order)
+            r = graphql.graphql_sync(s, "{ device { name serial ownerObj { fullName } owner { fullName } keeper { nickName } keeper2 { nickName } tags(n: 2) { label } maybe { fullName } } ownerFirst { fullName } }")
+            exp = {"device": {"name": "dev", "serial": 3, "ownerObj": {"fullName": "Ann"}, "owner": {"fullName": "Bob"}, "keeper": {"nickName": "kk"}, "keeper2": {"nickName": "k22"}, "tags": [{"label": "t0"}, {"label": "t1"}], "maybe": None}, "ownerFirst": {"fullName": "Zed"}}
+            if r.errors or r.data != exp:
+                viol("world_flattened_resolver", f"{order}: data={r.data} errors={r.errors}", order=order)
+        except Exception as e:
+            viol("world_schema_build", f"flattened resolver world: {e!r}", op="flattened_resolver", exc=type(e).__name__)
     # id encoding
     try:
         import base64
